@@ -62,6 +62,7 @@ class CollapseTag(Tag):
 
     def configure(self, characters: str = " "):  # type: ignore
         # TODO: check characters for empty string?
+        characters = re.escape(characters)
         self.pattern = re.compile(f"(?<=[{characters}])[{characters}]+")
 
     def process(self, file: File, context: Optional[str]) -> str:
